@@ -29,6 +29,10 @@ pub enum Kind {
     CreateOauth2Client,
     PurgeRecycled,
     Reindex,
+    /// bulk transactions: many entries rewritten by one commit
+    BatchCreate,
+    /// key material: a key object entry (loaded into the key providers at commit)
+    CreateKeyObject,
 }
 
 #[derive(Serialize, Deserialize, Clone, Debug)]
@@ -101,6 +105,8 @@ struct Observed {
     display_name: String,
     acp_counts: (usize, usize, usize, usize),
     oauth2_known: bool,
+    /// key objects a reader's key providers hold, for the uuids the transaction under test creates
+    keys_loaded: Vec<bool>,
 }
 
 impl Observed {
@@ -146,7 +152,8 @@ impl World {
         let ac = pr.qs_read.get_accesscontrols();
         let acp_counts = (ac.get_search().len(), ac.get_create().len(), ac.get_modify().len(), ac.get_delete().len());
         let oauth2_known = pr.oauth2_openid_publickey(OAUTH_NAME).is_ok();
-        Ok(Observed { entries: dump.digest(), dump, display_name, acp_counts, oauth2_known })
+        let keys_loaded: Vec<bool> = [uuid_for(6, 1000), uuid_for(9, 1000)].iter().map(|u| vh::key_object_es256_jwks(&pr.qs_read, *u).is_ok()).collect();
+        Ok(Observed { entries: dump.digest(), dump, display_name, acp_counts, oauth2_known, keys_loaded })
     }
 
     /// The transaction under test. Returns Ok only when commit reported success.
@@ -171,6 +178,18 @@ impl World {
                 w.qs_write.purge_recycled()?;
             }
             Kind::Reindex => w.qs_write.reindex(false)?,
+            Kind::CreateKeyObject => w.qs_write.internal_create(vec![entry_init!(
+                (Attribute::Class, EntryClass::Object.to_value()),
+                (Attribute::Class, EntryClass::KeyObject.to_value()),
+                (Attribute::Class, EntryClass::KeyObjectJwtEs256.to_value()),
+                (Attribute::Uuid, Value::Uuid(u(9, 0)))
+            )])?,
+            Kind::BatchCreate => {
+                let ps: Vec<_> = (0..24u64).map(|i| person(uuid_for(7, 1000 + gen * 32 + i), &format!("txb{gen}x{i}"))).collect();
+                let us: Vec<Uuid> = (0..24u64).map(|i| uuid_for(7, 1000 + gen * 32 + i)).collect();
+                w.qs_write.internal_create(ps)?;
+                w.qs_write.internal_create(vec![group(uuid_for(8, 1000 + gen), &format!("txbg{gen}"), &us)])?
+            }
         }
         w.commit()
     }
@@ -196,6 +215,9 @@ fn diff_observed(a: &Observed, b: &Observed) -> Vec<(&'static str, String)> {
     }
     if a.acp_counts != b.acp_counts {
         out.push(("access controls", format!("{:?} -> {:?}", a.acp_counts, b.acp_counts)));
+    }
+    if a.keys_loaded != b.keys_loaded {
+        out.push(("key material", format!("key objects loaded {:?} -> {:?}", a.keys_loaded, b.keys_loaded)));
     }
     if a.oauth2_known != b.oauth2_known {
         out.push(("OAuth2 client configuration", format!("{} -> {}", a.oauth2_known, b.oauth2_known)));
@@ -648,7 +670,7 @@ pub fn execute_c05(plan: &Plan) -> Outcome {
     out
 }
 
-const KINDS: [Kind; 9] = [Kind::CreatePerson, Kind::CreateGroupWithMembers, Kind::ModifyEntry, Kind::DeleteWithReferences, Kind::CreateAcp, Kind::DomainDisplayName, Kind::CreateOauth2Client, Kind::PurgeRecycled, Kind::Reindex];
+const KINDS: [Kind; 11] = [Kind::BatchCreate, Kind::CreateKeyObject, Kind::CreatePerson, Kind::CreateGroupWithMembers, Kind::ModifyEntry, Kind::DeleteWithReferences, Kind::CreateAcp, Kind::DomainDisplayName, Kind::CreateOauth2Client, Kind::PurgeRecycled, Kind::Reindex];
 
 pub struct StorageScenario {
     id: &'static str,
@@ -666,8 +688,8 @@ impl Scenario for StorageScenario {
     }
     fn budget(&self, tier: Tier) -> Budget {
         match tier {
-            Tier::Quick => Budget { runs: 16, wall_cap_s: 240 },
-            Tier::Thorough => Budget { runs: 9 * 24, wall_cap_s: 1700 },
+            Tier::Quick => Budget { runs: 20, wall_cap_s: 330 },
+            Tier::Thorough => Budget { runs: 11 * 20, wall_cap_s: 1700 },
         }
     }
     fn generate(&self, seed: u64, tier: Tier) -> Plan {
@@ -691,7 +713,7 @@ impl Scenario for StorageScenario {
     }
     fn rule(&self) -> String {
         if self.id == "C04" {
-            "A run = one transaction kind (entry create / group with member-of fan-out / modify / delete with references / access-control profile / domain display name / OAuth2 client through the IDM proxy / purge / reindex) after a seeded prefix history on a file-backed server. A dry run counts the storage calls N (hook H2: every statement of the write transaction, and COMMIT); then the transaction is repeated with call k failing, for every k (sampled above the cap), the live server is observed (canonical entry dump, domain display name, access-control lists, OAuth2 client lookup) and must equal the pre-state; a following ordinary write must commit; abandoned transactions and a final restart are checked too. evaluations = runs; distinct_nontrivial = distinct (kind, phase, outcome, k) digests.".into()
+            "A run = one transaction kind (entry create / group with member-of fan-out / modify / delete with references / access-control profile / domain display name / OAuth2 client through the IDM proxy / purge / reindex / batch create of 24 entries and their group / key object) after a seeded prefix history on a file-backed server. A dry run counts the storage calls N (hook H2: every statement of the write transaction, and COMMIT); then the transaction is repeated with call k failing, for every k (sampled above the cap), the live server is observed (canonical entry dump, domain display name, access-control lists, OAuth2 client lookup, key objects loaded in a reader's key providers) and must equal the pre-state; a following ordinary write must commit; abandoned transactions and a final restart are checked too. evaluations = runs; distinct_nontrivial = distinct (kind, phase, outcome, k) digests.".into()
         } else {
             "A run = one transaction kind after a seeded prefix history on a file-backed server. At every storage call k of the transaction (hook H2; sampled above the cap) the database file and WAL are copied as a dying process would leave them (one third also with the WAL tail cut at a random byte past its pre-transaction length) and a new server is booted on the copy with its clock set back: its canonical dump must equal the whole pre-state or the whole post-state, verify() must be empty, a copy taken after COMMIT returned must hold the post-state, and its first write must carry a change id greater than every one stored. distinct_nontrivial = distinct (kind, point kind, torn, recovered side, k) digests.".into()
         }
